@@ -125,7 +125,15 @@ class World:
     def rec_obs(self, element, rec):
         if rec is None:
             return None
-        key = [enc(rec.dataId[d]) for d in element.required.names]
+        # the key values are read from the record's own fields (not from record.dataId: for a join table whose minimal
+        # group only implies one of its required dimensions -- visit_definition in daf_butler universes 0 and 1 -- that
+        # data ID pairs the values with the wrong names)
+        key = []
+        for d in element.required.names:
+            if d == element.name:
+                key.append(enc(getattr(rec, element.primaryKey.name)))
+            else:
+                key.append(enc(getattr(rec, d)))
         imp = [enc(getattr(rec, d)) for d in element.implied.names]
         return {"key": key, "imp": imp}
 
@@ -193,14 +201,22 @@ class World:
         raise ValueError(k)
 
     def records_arg(self, entries):
-        """records= : [[element, key-values]] -> the stored DimensionRecord with that key (entries naming no stored row
-        are not passed); [element, None] -> an explicit None"""
+        """records= : [[element, {dimension: value}]] -> the stored DimensionRecord whose key is the values given for the
+        element's required dimensions (entries naming no stored row, an unknown element or lacking a key value are not
+        passed); [element, None] -> an explicit None"""
         out = {}
-        for el, key in entries:
-            if key is None:
+        for el, vals in entries:
+            if el not in self.universe.elements.names:
+                continue
+            if vals is None:
                 out[el] = None
                 continue
-            r = self.rec_index.get((el, json.dumps([list(x) for x in key])))
+            try:
+                key = [enc(dec(vals[d])) for d in self.universe[el].required.names]
+            except KeyError:
+                continue
+            key = [["i", int(x[1])] if x[0] in ("np", "b") else x for x in key]
+            r = self.rec_index.get((el, json.dumps(key)))
             if r is not None:
                 out[el] = r
         return out
